@@ -1029,6 +1029,14 @@ def m_bytes_join(interp, sep, items):
 SYM_TOLERANT = [enumerate, zip, reversed, print, map, filter, id, next]
 
 
+def m_memoryview(interp, obj):
+    # a read-only view of a symbolic byte string slices, measures and tests for emptiness exactly as the byte string does
+    if isinstance(obj, Rope):
+        return obj
+    interp.require_concrete(memoryview, (obj,), {})
+    return memoryview(obj)
+
+
 def install(interp):
     m = interp.models
     m[hasattr] = m_hasattr
@@ -1050,6 +1058,7 @@ def install(interp):
     tm[type] = m_type
     tm[str] = m_str
     tm[bytes] = m_bytes
+    tm[memoryview] = m_memoryview
     tm[int] = m_int
     tm[bool] = m_bool
     tm[tuple] = m_tuple
